@@ -160,6 +160,10 @@ func (x *Exec) modelCall(fr *Frame, st *State, fn *ssa.Function, name string, ar
 	case "github.com/matrix-org/util.GetLogger", "github.com/sirupsen/logrus.WithField", "github.com/sirupsen/logrus.WithError",
 		"github.com/sirupsen/logrus.WithFields", "github.com/sirupsen/logrus.WithContext":
 		return x.freshResultNonNil(st, resT, "log"), true
+	case "strings.HasPrefix":
+		return scalar(resT, x.hasPrefixTerm(args[0].Term, args[1].Term)), true
+	case "strings.HasSuffix":
+		return scalar(resT, x.hasSuffixTerm(args[0].Term, args[1].Term)), true
 	case "fmt.Printf", "fmt.Println", "fmt.Print", "log.Printf", "log.Println":
 		return x.freshResult(st, resT, "print"), true
 	}
